@@ -323,17 +323,27 @@ def replay(dump_mps, procs, nsteps=3):
     return 0 if r["safe"] else 1
 
 
+def emit(pl, obj):
+    """large results go through a file: the orchestrator reads the child's stdout pipe only after exit"""
+    if pl.get("out"):
+        with open(pl["out"], "w") as fh:
+            json.dump(obj, fh)
+        print("RESULT " + json.dumps({"file": pl["out"]}))
+    else:
+        print("RESULT " + json.dumps(obj))
+
+
 def main():
     pl = json.loads(sys.stdin.read())
     if pl["mode"] == "explore":
         cases = explore(pl.get("dump_mps"), pl["levels"], pl["nsteps"], shard=tuple(pl.get("shard", [0, 1])))
-        print("RESULT " + json.dumps({"cases": cases}))
+        emit(pl, {"cases": cases})
     elif pl["mode"] == "replay":
         r = run_history(pl["procs"], pl.get("dump_mps"), pl.get("nsteps", 3))
         print("RESULT " + json.dumps(r))
     elif pl["mode"] == "batch":
         out = [run_history(p, pl.get("dump_mps"), pl.get("nsteps", 3)) for p in pl["histories"]]
-        print("RESULT " + json.dumps({"cases": out}))
+        emit(pl, {"cases": out})
 
 
 if __name__ == "__main__" and not globals().get("_EMBEDDED"):
